@@ -147,10 +147,10 @@ void prop_enumerate(void) {
   } else if (!strcmp(mode, "big")) {
     /* recursion thresholds of the configuration built */
     int bs = __M4RI_MUL_BLOCKSIZE;
-    int ns[] = {bs - 1, bs, bs + 1, bs + 65, 2 * bs + 1};
+    int ns[] = {bs - 1, bs, bs + 1, bs + 65, 2 * bs + 1, 2 * bs + 130};
     int ws[] = {1, 65, 200};
-    for (int i = 0; i < 5; i++) for (int j = 0; j < 3; j++) {
-      if (ns[i] > 1300) continue;
+    for (int i = 0; i < 6; i++) for (int j = 0; j < 3; j++) {
+      if (ns[i] > 1700) continue;
       block(ns[i], ws[j], (tpat){3, 0, 90 + i, 0}, PRB, 0);
       if (vx_tier) block(ns[i], ns[i], (tpat){3, 2, 91 + i, 0}, PRB, 0);
     }
